@@ -5,6 +5,7 @@ import common as C
 import validout
 
 CORPUS = os.path.join(C.VERIF, "corpus", "C05")
+CORPUS_IAT = os.path.join(CORPUS, "iat")  # cases of harness/cmd/c05iat (IAT / ADV / whole files)
 
 
 def build(ctx):
@@ -12,7 +13,7 @@ def build(ctx):
     ctx.log("translate", out)
     if not ok:
         ctx.diag.append("translator failed: " + out[-300:])
-    C.prove(ctx, ["Props/C05.v", "Props/C05Valid.v"], ["Oblig/C05Obl.v", "Oblig/ValidOutObl.v"])
+    C.prove(ctx, ["Props/C05.v", "Props/C05Valid.v", "Props/C05Iat.v"], ["Oblig/C05Obl.v", "Oblig/ValidOutObl.v", "Oblig/C05IatObl.v"])
     ok, out = C.build_harness()
     ctx.log("go build", out)
     if not ok:
@@ -22,7 +23,53 @@ def build(ctx):
     ctx.log("ocaml", out[-3000:])
     if not ok:
         ctx.diag.append("extracted model does not build: " + out[-600:])
+    ok, out = C.build_ocaml("c05iat")
+    ctx.log("ocaml c05iat", out[-3000:])
+    if not ok:
+        ctx.diag.append("extracted IAT / ADV / file model does not build: " + out[-600:])
     return True
+
+
+def oracle_iat(ctx, n, maxops, sub="oracle_iat", salt=2505):
+    """harness/cmd/c05iat oracle: clean IAT / ADV / mixed-file histories through the public API,
+    file controls compared with the records of the file the Writer renders."""
+    d = os.path.join(ctx.rundir, sub)
+    os.makedirs(d, exist_ok=True)
+    rc, out = C.sh([os.path.join(C.BIN, "c05iat"), "oracle", "-out", d, "-n", str(n), "-maxops", str(maxops),
+                    "-salt", str(salt), "-corpus", CORPUS_IAT], timeout=3000)
+    ctx.log(sub, out[-2000:])
+    if rc != 0:
+        ctx.diag.append("c05iat oracle crashed rc=%d: %s" % (rc, out[-300:]))
+    before = len(ctx.fails)
+    summ = ctx.read_jsonl(os.path.join(d, "oracle_iat.jsonl"))
+    for f in ctx.fails[before:]:
+        f["input"] = f.get("case")
+    return summ
+
+
+def corr_iat(ctx):
+    """extracted astep (coq/Model/FileCreateAll.v) against IATBatch.build / Batch.build (standard, ADV) /
+    entry edits / File.Create on generated histories."""
+    d = os.path.join(ctx.rundir, "corr_iat")
+    os.makedirs(d, exist_ok=True)
+    rc, out = C.sh([os.path.join(C.BIN, "c05iat"), "corr", "-out", d, "-n", str(ctx.scale(2500, 40000)),
+                    "-maxops", str(ctx.scale(6, 10)), "-corpus", CORPUS_IAT], timeout=3000)
+    ctx.log("corr_iat", out[-1000:])
+    drv = os.path.join(C.BUILD, "ocaml", "c05iat", "driver")
+    if rc == 0 and os.path.exists(drv):
+        rc2, out2 = C.sh("%s %s > %s" % (drv, os.path.join(d, "cases.txt"), os.path.join(d, "model.txt")), timeout=3000)
+        if rc2 != 0:
+            ctx.diag.append("extracted IAT / ADV / file model crashed: " + out2[-300:])
+        ctx.compare("histories: IATBatch.build / Batch.build (ADV, standard) / entry edits / File.Create (all batch kinds)",
+                    os.path.join(d, "model.txt"), os.path.join(d, "impl.txt"))
+        try:
+            import json
+            info = json.loads(out.strip().splitlines()[-1])
+            ctx.cov.setdefault("c05iat", {})["corr"] = {k: info[k] for k in ("histories", "observations", "skipped", "generator_degraded") if k in info}
+        except (ValueError, IndexError):
+            pass
+    else:
+        ctx.diag.append("IAT / ADV / file correspondence could not run: " + out[-300:])
 
 
 def oracle(ctx, n, maxops, sub="oracle", salt=505):
@@ -43,6 +90,7 @@ def oracle(ctx, n, maxops, sub="oracle", salt=505):
 def search(ctx, factor):
     before = len(ctx.fails)
     oracle(ctx, ctx.scale(6000, 100000) * factor, ctx.scale(6, 8), "search", salt=9505)
+    oracle_iat(ctx, ctx.scale(800, 12000) * factor, ctx.scale(4, 8), "search_iat", salt=9506)
     found = ctx.fails[before:]
     del ctx.fails[before:]
     return found
@@ -54,12 +102,15 @@ def run(ctx):
         "offset-table emitter of the translator (translator/offsets.go: statement shapes of calculateBatchAmounts / upsertOffsets matched on their printed source)",
         "verif build-tag hook verif_export_c05.go (exports Batch.build, Batch.offset, IATBatch.build unchanged)",
         "abstraction function of the harness (harness/cmd/c05: EntryDetail -> code, amount, name-is-OFFSET, trace number, addenda count, RDFI)",
+        "tabulate-table emitter of the translator (translator/tabulate.go: code lists of IATBatch.calculateBatchAmounts / Batch.calculateADVBatchAmounts, constants and statement fragments of IATBatch.build, Batch.build (ADV branch), File.Create, createFileADV matched on their printed source)",
+        "abstraction function of harness/cmd/c05iat (IATEntryDetail -> code, amount, trace number, RDFI, presence and sequence fields of Addenda10-18, Addenda98/99; ADVEntryDetail -> code, amount, RDFI, Addenda99, sequence number; both file controls)",
     ]
     ctx.assumptions += [
         "Go int modelled as unbounded Z (amounts <= 10^10-1 and fewer than 9*10^8 entries cannot overflow int64)",
         "trace numbers are empty or strings of at most 16 digits; the header's ODFI is numeric (build returns an error otherwise)",
         "theorems about the control and the balance assume that an entry the caller named OFFSET has no addenda and a transaction code the removal loop books the way calculateBatchAmounts counts it (22/32 or a debit code) when an offset is configured",
-        "validateOpts == nil, non-ADV, non-IAT batches are modelled; ADV and IAT Create, the SEC specific Validate and addenda sequence numbers are covered by the oracle only",
+        "standard batches: validateOpts == nil is modelled; the SEC specific Validate and Addenda05 sequence numbers are covered by the oracle only",
+        "IAT / ADV models: trace numbers are empty or strings of at most 16 digits (IAT: or flagged as not numeric in their first eight characters); entry pointers of a batch are distinct and not nil; batches come from the constructors (an ADV batch carries an ADVControl, every other batch a Control)",
     ]
     if not build(ctx):
         return
@@ -76,9 +127,12 @@ def run(ctx):
         ctx.compare("histories: Batch.build / AddEntry / File.Create", os.path.join(d, "model.txt"), os.path.join(d, "impl.txt"))
     else:
         ctx.diag.append("correspondence could not run: " + out[-300:])
+    corr_iat(ctx)
     validout.run(ctx, "create")
     summ = oracle(ctx, ctx.scale(6000, 100000), ctx.scale(4, 8))
     ctx.add_summary(summ, "Create/AddEntry/File.Create history oracle")
+    summ = oracle_iat(ctx, ctx.scale(800, 12000), ctx.scale(4, 8))
+    ctx.add_summary(summ, "IAT / ADV / mixed-file history oracle (files as rendered by the Writer)")
     if ctx.tier == "thorough":
         ctx.cov["forbidden_vernacular"] = C.forbidden_vernacular()
 
@@ -88,6 +142,13 @@ def replay(path):
     if not ok:
         print(out[-2000:])
         return 1
-    rc, out = C.sh([os.path.join(C.BIN, "c05"), "replay", path], timeout=600)
+    binary = "c05"
+    try:
+        import json
+        if (json.load(open(path)).get("input") or {}).get("h") == "c05iat":
+            binary = "c05iat"
+    except (OSError, ValueError, AttributeError):
+        pass
+    rc, out = C.sh([os.path.join(C.BIN, binary), "replay", path], timeout=600)
     print(out)
     return 1 if rc != 0 else 0
